@@ -1094,6 +1094,8 @@ pub struct ExploreStats {
     pub capped: bool,
     /// default executions that were run a second time and compared
     pub replayed_twice: u64,
+    /// default executions repeated under a formatting tracing subscriber
+    pub traced_executions: u64,
     /// called with the choice prefix before every execution (trace mode)
     pub pre: Option<Box<dyn Fn(&[usize])>>,
 }
@@ -1101,6 +1103,49 @@ pub struct ExploreStats {
 /// Deviation-bounded exploration: every order alternative (cost 0), every
 /// fault alternative (cost 1) while the total cost stays within `bound`.
 /// `visit(result, choices)` is called for every complete execution.
+/// Octets of log text rendered by the traced executions of this process
+/// (evidence that the subscriber was live).
+pub static LOG_OCTETS_RENDERED: std::sync::atomic::AtomicU64 = std::sync::atomic::AtomicU64::new(0);
+
+pub struct CountingSink;
+impl std::io::Write for CountingSink {
+    fn write(&mut self, buf: &[u8]) -> std::io::Result<usize> {
+        LOG_OCTETS_RENDERED.fetch_add(buf.len() as u64, std::sync::atomic::Ordering::Relaxed);
+        Ok(buf.len())
+    }
+    fn flush(&mut self) -> std::io::Result<()> {
+        Ok(())
+    }
+}
+
+/// `run_once` under a subscriber that renders every log event (to a counting sink).
+pub fn run_once_traced(spec: &RunSpec, prefix: &[usize]) -> RunResult {
+    let subscriber = tracing_subscriber::fmt()
+        .with_max_level(tracing::Level::TRACE)
+        .with_writer(|| CountingSink)
+        .finish();
+    tracing::subscriber::with_default(subscriber, || run_once(spec, prefix))
+}
+
+thread_local! {
+    static TRACE_TICK: std::cell::Cell<u64> = const { std::cell::Cell::new(0) };
+}
+
+/// For checks that call `run_once` themselves: every `every`-th execution of
+/// the calling thread is run traced.
+pub fn run_once_some_traced(spec: &RunSpec, prefix: &[usize], every: u64) -> RunResult {
+    let n = TRACE_TICK.with(|t| {
+        let v = t.get();
+        t.set(v + 1);
+        v
+    });
+    if n % every == 0 {
+        run_once_traced(spec, prefix)
+    } else {
+        run_once(spec, prefix)
+    }
+}
+
 pub fn explore<F: FnMut(&RunResult, &[usize])>(
     spec: &RunSpec,
     bound: usize,
@@ -1161,6 +1206,20 @@ pub fn explore<F: FnMut(&RunResult, &[usize])>(
                 ));
             }
             stats.replayed_twice += 1;
+            // ... and once more under a subscriber that renders every log event
+            // and field (to nowhere), as a server at RUST_LOG=trace does: the
+            // arguments of the resolver's log lines are code of the repository too,
+            // and without a subscriber they are never evaluated.  The execution
+            // is judged like any other (a panic while formatting is a panic).
+            let traced = run_once_traced(spec, &prefix);
+            if traced.divergence.is_none() {
+                let choices: Vec<usize> = traced.points.iter().map(|p| p.taken).collect();
+                visit(&traced, &choices);
+                stats.traced_executions += 1;
+                stats.executions += 1;
+                stats.exchanges += traced.log.len() as u64;
+                stats.choice_points += traced.points.len() as u64;
+            }
         }
         stats.executions += 1;
         stats.exchanges += res.log.len() as u64;
